@@ -10,6 +10,8 @@ import JenVerif.Props.C04
 import JenVerif.Props.C19
 import JenVerif.Props.C03
 import JenVerif.Props.C16
+import JenVerif.Props.C12
+import JenVerif.Tie.TokenSrc
 /-
   Property statements transferred to the TRANSLATED code.
 
@@ -283,6 +285,29 @@ theorem C16_dict_on_code (cfg : Cfg) (f : FileS) (hg : Good cfg f) (ps : List (C
     rw [C16.pairs_exact cfg (envOf f') ps] at hp
     exact hp
 
+/-- C12 on the translated `token.render`: for EVERY byte string (quotes, backslashes, line breaks,
+    NUL, invalid UTF-8 …) what it writes for `Lit(s)`, read back with Go's string-literal grammar, is
+    exactly `s`, and the reader stops exactly where the literal ends — whatever follows, whatever the
+    recursion parameter and File state -/
+theorem C12_string_on_code (cfg : Cfg) (h : Quote.PSafe cfg.isPrint) (rec : Go.Rec) (f : FileS) (s rest : Str) :
+    ∃ out, Gen.Src.token_render cfg rec (Go.tokTyp (.lit (.str s))) (Go.dynOf (.lit (.str s))) f [] = some (out, f) ∧
+      GoLex.readString (out ++ rest) = some (s, rest) := by
+  refine ⟨_, by rw [token_render_lit], ?_⟩
+  simp only [List.nil_append]
+  exact C12.string_roundtrip h s rest
+
+/-- … and every byte value is written as `byte(0x<digits>)` with exactly that value -/
+theorem C12_byte_on_code (cfg : Cfg) (rec : Go.Rec) (f : FileS) (b : UInt8) :
+    ∃ digits, Gen.Src.token_render cfg rec (Go.tokTyp (.lit (.byte b))) (Go.dynOf (.lit (.byte b))) f [] =
+        some (b!"byte(0x" ++ digits ++ b!")", f) ∧
+      GoNum.readHex (b!"0x" ++ digits) = some b.toNat := by
+  obtain ⟨digits, h1, h2⟩ := C12.byte_roundtrip cfg.isPrint b
+  refine ⟨digits, ?_, h2⟩
+  rw [token_render_lit, h1]
+  rfl
+
+#print axioms C12_string_on_code
+#print axioms C12_byte_on_code
 #print axioms C16_dict_on_code
 #print axioms C03_final_table_on_code
 #print axioms C19_C_on_code
